@@ -26,6 +26,7 @@ def plan(tier, seed):
     shards = [{"kind": "sessions", "seed": seed, "shard": i, "n": 3} for i in range(k)]
     shards += [{"kind": "embedded", "seed": seed, "shard": i, "n": 3} for i in range(8 if tier == "quick" else 120)]
     shards += [{"kind": "envelope", "seed": seed, "shard": i, "n": 1} for i in range(2 if tier == "quick" else 20)]
+    shards += [{"kind": "deep", "seed": seed, "shard": i, "n": 1} for i in range(2 if tier == "quick" else 24)]
     return shards
 
 
@@ -388,15 +389,16 @@ def _norm(t):
     return out
 
 
-def run_session(rng, cnt, viols, hashes, samples, extreme=False):
+def run_session(rng, cnt, viols, hashes, samples, extreme=False, deep=False):
     heavy = heavy_ledger(rng, rng.choice([1500, 2500, 4000]))
     pool = []
     for _p in range(rng.randint(2, 4)):
         fxp = rng.random() < 0.3
         t_ = multi_year_ledger(rng, fxp)
         pool.append({"txs": t_, "fx": fxp, "dsl": render_dsl(t_), "json": to_json_text(t_, lambda t: t)})
-    ctx = {"heavy": heavy, "heavy_p": 0.08, "pool": pool}
-    n = rng.randint(5, 120)
+    ctx = {"heavy": heavy, "heavy_p": 0.04 if deep else 0.08, "pool": pool}
+    # deep: several hundred requests written in ONE burst, so that all of them are in flight at once
+    n = rng.randint(250, 600) if deep else rng.randint(5, 120)
     reqs = []
     for i in range(n):
         rid = i + 1 if rng.random() < 0.7 else f"req-{i + 1}"
@@ -408,7 +410,7 @@ def run_session(rng, cnt, viols, hashes, samples, extreme=False):
     depth_max = 0
     sentinels = []
     while i < len(reqs):
-        b = rng.choice([1, 1, 2, 4, 8, 16, 32, 64])
+        b = len(reqs) if deep else rng.choice([1, 1, 2, 4, 8, 16, 32, 64])
         burst = [r for r, _ in reqs[i:i + b]]
         i += b
         sid = f"sentinel-{i}"
@@ -419,11 +421,13 @@ def run_session(rng, cnt, viols, hashes, samples, extreme=False):
         if rng.random() < 0.6:
             sess.wait_for([sid], 60)
     ids = [r["id"] for r, _ in reqs] + sentinels
-    all_answered = sess.wait_for(ids, 60)
+    all_answered = sess.wait_for(ids, 300 if deep else 60)
     alive = sess.alive()
     end = sess.finish()
     hv, stats, resp = check_history(sess, end)
     cnt["sessions"] += 1
+    if deep:
+        cnt["deep_sessions(all requests in one write)"] += 1
     cnt["requests"] += stats["requests"]
     cnt["out_of_order_completions"] += stats["out_of_order_completions"]
     cnt["max_burst_seen"] = max(cnt["max_burst_seen"], depth_max)
@@ -554,6 +558,17 @@ def run_sessions(desc):
     return {"evaluations": cnt["requests"], "nontrivial_hashes": hashes, "counters": cnt, "violations": cap_viols(viols), "samples": samples}
 
 
+def run_deep(desc):
+    rng = rng_for(PROP, desc["seed"], "deep", desc["shard"])
+    cnt = Counter()
+    viols = []
+    hashes = set()
+    samples = []
+    for _ in range(desc["n"]):
+        run_session(rng, cnt, viols, hashes, samples, deep=True)
+    return {"evaluations": cnt["requests"], "nontrivial_hashes": hashes, "counters": cnt, "violations": cap_viols(viols), "samples": []}
+
+
 def run_embedded(desc):
     """Sessions under the embedded exemption table (no config file), as users run the server. The ledger pool reaches
     outside the table, so calculate_report without a year filter fails for some ledgers and a year filter decides for
@@ -677,7 +692,7 @@ def run_envelope(desc):
 
 
 def run_shard(desc):
-    return {"sessions": run_sessions, "embedded": run_embedded, "envelope": run_envelope}[desc["kind"]](desc)
+    return {"sessions": run_sessions, "embedded": run_embedded, "envelope": run_envelope, "deep": run_deep}[desc["kind"]](desc)
 
 
 def replay(case):
